@@ -150,7 +150,7 @@ def run_cli(argv_tail, rec_name, input_kind, workdir, extra_files=False):
         with open(path, "wb") as fp:
             fp.write(data)
         argv = [path]
-    argv = argv + [a.replace("@", workdir + "/") for a in argv_tail]
+    argv = argv + [a.replace("<WD>", workdir + "/") for a in argv_tail]
     res = Run()
     res.argv = argv
     res.status = "never returned"
@@ -344,7 +344,7 @@ def misc(rep, tier):
         for kind in ("wav", "stdin"):
             # -O: the saved stream equals the input audio
             rep.add("evaluations")
-            res = run_cli(argv_from(opts) + ["-O", "@out.wav"], rec, kind, wd)
+            res = run_cli(argv_from(opts) + ["-O", "<WD>out.wav"], rec, kind, wd)
             msg = check_run(res, rec, opts)
             if not msg:
                 try:
@@ -358,7 +358,7 @@ def misc(rep, tier):
                 rep.violation("cli -O rec=%s input=%s" % (rec, kind), msg, {"kind": "climisc", "what": "-O", "rec": rec, "input": kind})
             # -O raw
             rep.add("evaluations")
-            res = run_cli(argv_from(opts) + ["-O", "@out.raw"], rec, kind, wd)
+            res = run_cli(argv_from(opts) + ["-O", "<WD>out.raw"], rec, kind, wd)
             msg = check_run(res, rec, opts)
             if not msg:
                 try:
@@ -372,7 +372,7 @@ def misc(rep, tier):
             # -o: one file per detection
             for tpl in ("ev_{id}.wav", "ev_{id}_{start:.3f}_{end:.3f}.wav", "d{duration:.2f}_{id}.wav"):
                 rep.add("evaluations")
-                res = run_cli(argv_from(opts) + ["-o", "@" + tpl], rec, kind, wd)
+                res = run_cli(argv_from(opts) + ["-o", "<WD>" + tpl], rec, kind, wd)
                 msg = check_run(res, rec, opts)
                 if not msg:
                     names = set()
@@ -394,9 +394,10 @@ def misc(rep, tier):
                     rep.violation("cli -o %s rec=%s input=%s" % (tpl, rec, kind), msg,
                                   {"kind": "climisc", "what": "-o", "tpl": tpl, "rec": rec, "input": kind})
             # -j with -O
-            for j in (0, 0.01, 0.0125, 0.1):
+            # ... including durations that are not a whole number of samples (rounded to the nearest, never truncated)
+            for j in (0, 0.01, 0.0125, 0.1, 0.0016, 0.0999):
                 rep.add("evaluations")
-                res = run_cli(argv_from(opts) + ["-O", "@joined.wav", "-j", str(j)], rec, kind, wd)
+                res = run_cli(argv_from(opts) + ["-O", "<WD>joined.wav", "-j", str(j)], rec, kind, wd)
                 msg = check_run(res, rec, opts)
                 if not msg:
                     sil = b"\0" * (round(j * r["rate"]) * r["sw"] * r["ch"])
@@ -443,7 +444,7 @@ def misc(rep, tier):
     for rec in ("mono16", "stereo16"):
         rep.add("evaluations")
         opts = dict(n=0.02, m=0.3, s=0.02, a=0.01, e=50)
-        res = run_cli(argv_from(opts) + ["-o", "@no_such_dir/ev_{id}.wav"], rec, "wav", wd)
+        res = run_cli(argv_from(opts) + ["-o", "<WD>no_such_dir/ev_{id}.wav"], rec, "wav", wd)
         msg = check_run(res, rec, opts, tolerate=("RegionSaverWorker",))
         if msg:
             rep.violation("cli failing -o rec=%s" % rec, msg[:300], {"kind": "climisc", "what": "bad-o"})
@@ -458,7 +459,7 @@ def misc(rep, tier):
         rep.violation("cli many detections", msg[:400], {"kind": "climisc", "what": "many"})
     # --printf: typed escapes (\\n \\t \\r) together with ordinary and non-ASCII text
     for pf in ("{id}\\t{start} -> {end}", "{id} \u00c9v\u00e9nement {start}", "{id}\\t\u00c9v\u00e9nement \u2192 {start}\\n--", "[{id}] 100% {start}",
-               "{id} back\\\\slash {start}"):
+               "{id} back\\\\slash {start}", "@{id} {start} {end}", "@", "+{id}", "{id} @{start} -{end}"):
         rep.add("evaluations")
         opts = dict(n=0.02, m=0.3, s=0.02, a=0.01, e=50)
         res = run_cli(argv_from(opts) + ["--printf", pf], "mono16", "wav", wd)
@@ -583,11 +584,14 @@ def run(prop, tier):
 
     chk_workers.lib()
     for p_ in (["AaA", "AAAA"] if quick else ["A", "AaA", "AAAA", "AaAaA"]):
-        for argv_ in ([], ["-o", "@ev_{id}.wav"]):
+        for argv_ in ([], ["-o", "<WD>ev_{id}.wav"]):
             tasks.append(("sched", (dict(kind="cli", pattern=p_, observers=[], split="s0", argv=argv_), 1, 0, "sync", None, None)))
+    # a second run into a directory that still holds the first run's detection files (-o overwrites them)
+    tasks.append(("sched", (dict(kind="cli", pattern="AAaA", observers=[], split="s2", argv=["-o", "<WD>ev_{id}.wav"], preexisting=[1, 3]),
+                            0, 0, "sync", None, None)))
     # an observer that dies (the region saver cannot write): the others still get everything, under every interleaving
     for p_ in ("AaA", "AAAA"):
-        tasks.append(("sched", (dict(kind="cli", pattern=p_, observers=[], split="s2" if p_ == "AAAA" else "s0", argv=["-o", "@no_such_dir/ev_{id}.wav"],
+        tasks.append(("sched", (dict(kind="cli", pattern=p_, observers=[], split="s2" if p_ == "AAAA" else "s0", argv=["-o", "<WD>no_such_dir/ev_{id}.wav"],
                                      tolerate_crash=["RegionSaverWorker"]), 1, 0, "sync", None, None)))
     for part in common.pmap(_dispatch, tasks):
         rep.merge(part)
